@@ -123,7 +123,7 @@ func c36Pick[T any](t *rapid.T, label string, has bool, old T, pool []T) T {
 	if c36Keep(t, has, label) {
 		return old
 	}
-	return rapid.SampleFrom(pool).Draw(t, label)
+	return rapid.SampledFrom(pool).Draw(t, label)
 }
 
 func c36GenAF(t *rapid.T, label string, has bool, old *c36AF) *c36AF {
@@ -141,17 +141,17 @@ func c36GenAF(t *rapid.T, label string, has bool, old *c36AF) *c36AF {
 		if rapid.IntRange(0, 9).Draw(t, label+"_send") < 6 {
 			af.hasSend = true
 			af.multipath = rapid.Bool().Draw(t, label+"_multipath")
-			af.pathCount = rapid.SampleFrom(c36PathCounts).Draw(t, label+"_pathcount")
+			af.pathCount = rapid.SampledFrom(c36PathCounts).Draw(t, label+"_pathcount")
 		}
 	}
 	return af
 }
 
 func c36GenChain(t *rapid.T, label string, defined []string) []string {
-	n := rapid.SampleFrom([]int{0, 0, 1, 1, 1, 2}).Draw(t, label+"_len")
+	n := rapid.SampledFrom([]int{0, 0, 1, 1, 1, 2}).Draw(t, label+"_len")
 	var out []string
 	for i := 0; i < n; i++ {
-		out = append(out, rapid.SampleFrom(defined).Draw(t, fmt.Sprintf("%s_%d", label, i)))
+		out = append(out, rapid.SampledFrom(defined).Draw(t, fmt.Sprintf("%s_%d", label, i)))
 	}
 	return out
 }
@@ -198,7 +198,7 @@ func c36GenSet(t *rapid.T, label string, old *c36Set, nbrLevel bool, defined []s
 		} else if unsetBias(l) {
 			s.localAddr = ""
 		} else {
-			s.localAddr = rapid.SampleFrom(append([]string{""}, c36LocalAddrs...)).Draw(t, l)
+			s.localAddr = rapid.SampledFrom(append([]string{""}, c36LocalAddrs...)).Draw(t, l)
 		}
 	})
 	pick("ttl", func(l string) {
@@ -207,7 +207,7 @@ func c36GenSet(t *rapid.T, label string, old *c36Set, nbrLevel bool, defined []s
 		} else if unsetBias(l) {
 			s.ttl = 0
 		} else {
-			s.ttl = rapid.SampleFrom(c36TTLs).Draw(t, l)
+			s.ttl = rapid.SampledFrom(c36TTLs).Draw(t, l)
 		}
 	})
 	pick("auth", func(l string) {
@@ -216,7 +216,7 @@ func c36GenSet(t *rapid.T, label string, old *c36Set, nbrLevel bool, defined []s
 		} else if unsetBias(l) {
 			s.auth = ""
 		} else {
-			s.auth = rapid.SampleFrom(c36Auths).Draw(t, l)
+			s.auth = rapid.SampledFrom(c36Auths).Draw(t, l)
 		}
 	})
 	pick("peeras", func(l string) {
@@ -225,7 +225,7 @@ func c36GenSet(t *rapid.T, label string, old *c36Set, nbrLevel bool, defined []s
 		} else if unsetBias(l) {
 			s.peerAS = 0
 		} else {
-			s.peerAS = rapid.SampleFrom(append([]uint32{0}, c36ASNs...)).Draw(t, l)
+			s.peerAS = rapid.SampledFrom(append([]uint32{0}, c36ASNs...)).Draw(t, l)
 		}
 	})
 	pick("localas", func(l string) {
@@ -234,7 +234,7 @@ func c36GenSet(t *rapid.T, label string, old *c36Set, nbrLevel bool, defined []s
 		} else if unsetBias(l) {
 			s.localAS = 0
 		} else {
-			s.localAS = rapid.SampleFrom(append([]uint32{0, 0, 0}, c36ASNs...)).Draw(t, l)
+			s.localAS = rapid.SampledFrom(append([]uint32{0, 0, 0}, c36ASNs...)).Draw(t, l)
 		}
 	})
 	pick("hold", func(l string) {
@@ -243,7 +243,7 @@ func c36GenSet(t *rapid.T, label string, old *c36Set, nbrLevel bool, defined []s
 		} else if unsetBias(l) {
 			s.hold = 0
 		} else {
-			s.hold = rapid.SampleFrom(c36Holds).Draw(t, l)
+			s.hold = rapid.SampledFrom(c36Holds).Draw(t, l)
 		}
 	})
 	pick("import", func(l string) {
@@ -288,7 +288,7 @@ func c36GenSet(t *rapid.T, label string, old *c36Set, nbrLevel bool, defined []s
 		} else if unsetBias(l) {
 			s.cluster = ""
 		} else {
-			s.cluster = rapid.SampleFrom(c36Clusters).Draw(t, l)
+			s.cluster = rapid.SampledFrom(c36Clusters).Draw(t, l)
 		}
 	})
 	pick("v4", func(l string) {
@@ -317,16 +317,16 @@ func c36GenTerm(t *rapid.T, label string, old *c36Term) c36Term {
 			n := *old
 			switch {
 			case n.lp != nil:
-				v := rapid.SampleFrom(c36LPs).Draw(t, label+"_lp")
+				v := rapid.SampledFrom(c36LPs).Draw(t, label+"_lp")
 				n.lp = &v
 			case n.med != nil:
-				v := rapid.SampleFrom(c36MEDs).Draw(t, label+"_med")
+				v := rapid.SampledFrom(c36MEDs).Draw(t, label+"_med")
 				n.med = &v
 			case n.hasPrep:
-				n.prepCnt = rapid.SampleFrom(c36PrepCnts).Draw(t, label+"_prepcnt")
-				n.prepASN = rapid.SampleFrom(c36PrepASNs).Draw(t, label+"_prepasn")
+				n.prepCnt = rapid.SampledFrom(c36PrepCnts).Draw(t, label+"_prepcnt")
+				n.prepASN = rapid.SampledFrom(c36PrepASNs).Draw(t, label+"_prepasn")
 			case n.nh != "":
-				n.nh = rapid.SampleFrom(c36NHs).Draw(t, label+"_nh")
+				n.nh = rapid.SampledFrom(c36NHs).Draw(t, label+"_nh")
 			default:
 				n.accept, n.reject = !n.accept, !n.reject
 			}
@@ -334,16 +334,16 @@ func c36GenTerm(t *rapid.T, label string, old *c36Term) c36Term {
 		}
 	}
 	var tm c36Term
-	nrf := rapid.SampleFrom([]int{0, 0, 1, 1, 2}).Draw(t, label+"_nrf")
+	nrf := rapid.SampledFrom([]int{0, 0, 1, 1, 2}).Draw(t, label+"_nrf")
 	for i := 0; i < nrf; i++ {
 		l := fmt.Sprintf("%s_rf%d", label, i)
 		rf := c36RF{
-			prefix:  rapid.SampleFrom(c36RFPfx).Draw(t, l+"_pfx"),
-			matcher: rapid.SampleFrom(c36Matchers).Draw(t, l+"_m"),
+			prefix:  rapid.SampledFrom(c36RFPfx).Draw(t, l+"_pfx"),
+			matcher: rapid.SampledFrom(c36Matchers).Draw(t, l+"_m"),
 		}
 		if rf.matcher == "range" {
-			a := rapid.SampleFrom(c36Lens).Draw(t, l+"_min")
-			b := rapid.SampleFrom(c36Lens).Draw(t, l+"_max")
+			a := rapid.SampledFrom(c36Lens).Draw(t, l+"_min")
+			b := rapid.SampledFrom(c36Lens).Draw(t, l+"_max")
 			if a > b {
 				a, b = b, a
 			}
@@ -357,27 +357,27 @@ func c36GenTerm(t *rapid.T, label string, old *c36Term) c36Term {
 	case 1:
 		tm.reject = true
 	case 2:
-		v := rapid.SampleFrom(c36LPs).Draw(t, label+"_lp")
+		v := rapid.SampledFrom(c36LPs).Draw(t, label+"_lp")
 		tm.lp, tm.accept = &v, true
 	case 3:
-		v := rapid.SampleFrom(c36MEDs).Draw(t, label+"_med")
+		v := rapid.SampledFrom(c36MEDs).Draw(t, label+"_med")
 		tm.med, tm.accept = &v, true
 	case 4:
 		tm.hasPrep, tm.accept = true, true
-		tm.prepASN = rapid.SampleFrom(c36PrepASNs).Draw(t, label+"_prepasn")
-		tm.prepCnt = rapid.SampleFrom(c36PrepCnts).Draw(t, label+"_prepcnt")
+		tm.prepASN = rapid.SampledFrom(c36PrepASNs).Draw(t, label+"_prepasn")
+		tm.prepCnt = rapid.SampledFrom(c36PrepCnts).Draw(t, label+"_prepcnt")
 	case 5:
-		tm.nh, tm.accept = rapid.SampleFrom(c36NHs).Draw(t, label+"_nh"), true
+		tm.nh, tm.accept = rapid.SampledFrom(c36NHs).Draw(t, label+"_nh"), true
 	case 6:
 		// modifies and falls through to the next term / filter of the chain
-		v := rapid.SampleFrom(c36LPs).Draw(t, label+"_lp")
+		v := rapid.SampledFrom(c36LPs).Draw(t, label+"_lp")
 		tm.lp = &v
 	case 7:
-		v := rapid.SampleFrom(c36LPs).Draw(t, label+"_lp")
-		w := rapid.SampleFrom(c36MEDs).Draw(t, label+"_med")
+		v := rapid.SampledFrom(c36LPs).Draw(t, label+"_lp")
+		w := rapid.SampledFrom(c36MEDs).Draw(t, label+"_med")
 		tm.lp, tm.med, tm.accept = &v, &w, true
 	case 8:
-		v := rapid.SampleFrom(c36MEDs).Draw(t, label+"_med")
+		v := rapid.SampledFrom(c36MEDs).Draw(t, label+"_med")
 		tm.med = &v
 	}
 	return tm
@@ -463,7 +463,7 @@ func c36GenCfg(t *rapid.T, label string, base *c36Cfg) *c36Cfg {
 		if len(free) == 0 {
 			break
 		}
-		name := rapid.SampleFrom(free).Draw(t, fmt.Sprintf("%s_polname%d", label, i))
+		name := rapid.SampledFrom(free).Draw(t, fmt.Sprintf("%s_polname%d", label, i))
 		seen[name] = true
 		c.pols = append(c.pols, c36GenPol(t, fmt.Sprintf("%s_newpol%d", label, i), name, nil))
 	}
@@ -485,7 +485,7 @@ func c36GenCfg(t *rapid.T, label string, base *c36Cfg) *c36Cfg {
 		if len(free) == 0 || rapid.IntRange(0, 29).Draw(t, l+"_dup") == 0 {
 			free = c36NbrAddrs
 		}
-		a := rapid.SampleFrom(free).Draw(t, l+"_addr")
+		a := rapid.SampledFrom(free).Draw(t, l+"_addr")
 		used[a] = true
 		return a, true
 	}
@@ -508,7 +508,7 @@ func c36GenCfg(t *rapid.T, label string, base *c36Cfg) *c36Cfg {
 		}
 		add := 0
 		if old == nil {
-			add = rapid.SampleFrom([]int{0, 1, 1, 2, 2, 3}).Draw(t, l+"_nnbr")
+			add = rapid.SampledFrom([]int{0, 1, 1, 2, 2, 3}).Draw(t, l+"_nnbr")
 		} else if rapid.IntRange(0, 9).Draw(t, l+"_addnbr") < 3 {
 			add = 1
 		}
@@ -523,10 +523,10 @@ func c36GenCfg(t *rapid.T, label string, base *c36Cfg) *c36Cfg {
 		for i := range g.nbrs {
 			nl := fmt.Sprintf("%s_fix%d", l, i)
 			if g.s.localAddr == "" && g.nbrs[i].s.localAddr == "" {
-				g.nbrs[i].s.localAddr = rapid.SampleFrom(c36LocalAddrs).Draw(t, nl+"_localaddr")
+				g.nbrs[i].s.localAddr = rapid.SampledFrom(c36LocalAddrs).Draw(t, nl+"_localaddr")
 			}
 			if g.s.peerAS == 0 && g.nbrs[i].s.peerAS == 0 {
-				g.nbrs[i].s.peerAS = rapid.SampleFrom(c36ASNs).Draw(t, nl+"_peeras")
+				g.nbrs[i].s.peerAS = rapid.SampledFrom(c36ASNs).Draw(t, nl+"_peeras")
 			}
 		}
 		return g
@@ -541,7 +541,7 @@ func c36GenCfg(t *rapid.T, label string, base *c36Cfg) *c36Cfg {
 	}
 	ng := 0
 	if !has {
-		ng = rapid.SampleFrom([]int{1, 1, 2, 2, 3}).Draw(t, label+"_ngrp")
+		ng = rapid.SampledFrom([]int{1, 1, 2, 2, 3}).Draw(t, label+"_ngrp")
 	} else if rapid.IntRange(0, 9).Draw(t, label+"_addgrp") < 2 {
 		ng = 1
 	}
